@@ -24,7 +24,7 @@ def chunk_key(pi, idx, L):
     return None, 'unknown provenance %s' % L.s
 
 
-def run(ctx):
+def _run(ctx):
     ctx.explanation = ('Static clauses on zone_malloc.c, decided per enumerated path with symbolic tracking of the segment / chunk-list cells the function itself writes (syntactically different cells assumed distinct: '
                        'prev, current and next segments have different indices): (a) gdata->lock paired on all exits and every tree / list / segment access inside it; (b) best fit: the candidate list comes from '
                        'find_or_larger(tree, ceil(size/unit)); (c) key consistency: every free segment is pushed on a chunk list whose tree key equals the segment\'s nb_units at that point (key from find / '
@@ -236,3 +236,10 @@ def _find_expr(L, Ls):
         if x.s == Ls:
             return x
     return L
+
+
+
+def run(ctx):
+    _run(ctx)
+    from rules import whowrites
+    whowrites.thorough(ctx, 'C28')
